@@ -306,13 +306,26 @@ class Gen:
         return ["rec", fields, self.style(fields)]
 
     def style(self, fields):
+        st = self.style0(fields)
+        # how record VALUES are constructed: keywords in declaration order, keywords reversed / rotated, positional, mixed
+        st["ctor"] = self.rng.choice(["kw", "rev", "rot", "pos", "mix"])
+        return st
+
+    def style0(self, fields):
         r = self.rng
-        how = r.choice(["type", "class", "inherit", "inherit", "templ"])
+        how = r.choice(["type", "class", "inherit", "inherit", "templ", "templ"])
         if how == "templ":
             ws = [f[1] for f in fields if f[0] in VEC]
             if not ws:
                 return {"how": "class"}
-            return {"how": "templ", "w": r.choice(ws)}
+            st = {"how": "templ", "w": r.choice(ws)}
+            if r.random() < 0.5 and len(fields) >= 2:
+                # the template declaration itself inherits from another template declaration
+                n = len(fields)
+                groups = r.randint(2, 3)
+                cuts = sorted(r.randint(0, n) for _ in range(groups - 1))
+                st["split"] = [b - a for a, b in zip([0] + cuts, cuts + [n])]
+            return st
         if how == "inherit":
             n = len(fields)
             groups = r.randint(2, 4)
@@ -437,6 +450,10 @@ CORPUS = [
     R([R([["bit"], ["bv", 2], ["u", 2], ["s", 2]], how="templ", w=2),
        R([["bit"], ["bv", 8], ["u", 8], ["s", 8]], how="templ", w=8), ["bit"], ["bv", 2]], how="templ", w=2),
     ["sarr", R([["bit"], ["u", 3], ["s", 5]], how="class"), 3],
+    R([["bit"], ["u", 3], ["s", 5]], how="class", ctor="rev"), R([["bv", 2], ["u", 3], ["bit"]], how="type", ctor="mix"),
+    R([["bv", 2], ["u", 3], ["bit"], ["s", 2]], how="inherit", split=[2, 2], ctor="rot"),
+    R([["bv", 4], ["bit"], ["u", 4]], how="templ", w=4, split=[1, 2], ctor="pos"),
+    R([["bit"], ["bv", 3], ["u", 2], ["s", 3]], how="templ", w=3, split=[2, 1, 1], ctor="rev"),
     ["sarr", R([["u", 3], ["sarr", R([["bit"], ["s", 2]]), 2], ["bit"]], how="class"), 2],
     ["enum", ["u", 3], False], ["enum", ["bv", 4], True], ["enum", ["s", 2], False],
     ["sfix", 3, -2], ["sfix", 3, 3], ["ufix", 3, -2], ["ufix", -3, -7], ["sfix", 9, 2],
@@ -479,7 +496,9 @@ def kinds(t, acc=None, depth=0):
     if t[0] in ("carr", "sarr", "enum"):
         kinds(t[1], acc, depth + 1)
     elif t[0] == "rec":
-        acc["rec_" + t[2].get("how", "type")] = acc.get("rec_" + t[2].get("how", "type"), 0) + 1
+        hw = t[2].get("how", "type") + ("_inherit" if t[2].get("how") == "templ" and t[2].get("split") else "")
+        acc["rec_" + hw] = acc.get("rec_" + hw, 0) + 1
+        acc["ctor_" + t[2].get("ctor", "kw")] = acc.get("ctor_" + t[2].get("ctor", "kw"), 0) + 1
         for f in t[1]:
             kinds(f, acc, depth + 1)
     return acc
